@@ -24,6 +24,7 @@ def build(tier):
     obs += [ob("option", ["quo"], L, timeout=t), ob("option", ["quo", "id"], L, timeout=t), ob("option", ["quo_esc", "unq"], L, False, timeout=t)]
     # the same option name declared twice (second declaration undocumented, e.g. inside if(WIN32)): two entries
     obs += [ob("option_twice", ["quo", "id", "id"], 1, True, timeout=t), ob("option_twice", ["quo", "id"], 1, False, timeout=t)]
+    obs += [ob("set_twice", ["quo", "id"], 1, True, timeout=t), ob("set_twice", ["id", "id", "id"], 1, True, timeout=t)]
     if not quick:
         obs += [ob("option", ["quo"], L, False, timeout=t), ob("set", ["quo"], 3, timeout=2400), ob("set", ["unq_esc"], 3, timeout=2400)]
     return dict(obligations=obs, explanation="x", assumptions=[])
